@@ -120,7 +120,15 @@ func handBuilt(r *Rng, g *PageGen) (*html.Node, string) {
 		return n
 	}
 	long := g.words(40)
-	switch r.Intn(22) {
+	switch r.Intn(24) {
+	case 22:
+		cap := mkEl("figcaption", mkText("cap"), mkEl("a", mkText("l")))
+		cap.Attr = []html.Attribute{{Key: "hidden", Val: ""}}
+		return mkEl("div", mkEl("p", mkText(long)), mkEl("figure", mkEl("img"), cap), mkEl("p", mkText(long))), "figure-with-hidden-caption"
+	case 23:
+		t := mkEl("table", mkEl("tr", mkEl("th", mkText("h")), mkEl("th", mkText("h"))), mkEl("tr", mkEl("td", mkText(long)), mkEl("td", mkText(long))))
+		t.Attr = []html.Attribute{{Key: "style", Val: "visibility:hidden"}}
+		return mkEl("div", mkEl("p", mkText(long)), t, mkEl("p", mkText(long))), "hidden-data-table"
 	case 0:
 		return mkText(long), "text-root"
 	case 1:
